@@ -49,8 +49,8 @@ pub const SEEDS: &[Seed] = &[
         name: "crate-settings-edits",
         nflags: 7,
         files: &[
-            ("@settings", "edition=⟦3:0¦3⟧ feature_x=⟦4:0¦1⟧ experimental=⟦5:0¦1⟧ edition_plus=⟦6:0¦1⟧"),
-            ("lib.cairo", "⟦0:¦// top\n⟧mod m;\n#[cfg(feature: 'x')]\nfn pick() -> u8 {\n    1\n}\n#[cfg(not(feature: 'x'))]\nfn pick() -> u8 {\n    2\n}\nfn f(a: u8) -> u8 {\n    m::hidden(a) + pick() + ⟦1:1¦2⟧\n}\n⟦2:¦use m::*;\nfn g(a: u8) -> u8 {\n    vis(a)\n}\n⟧fn d() -> Felt252Dict<u8> {\n    Default::default()\n}\n"),
+            ("@settings", "edition=⟦0:0¦3⟧ feature_x=⟦1:0¦1⟧ experimental=⟦5:0¦1⟧ edition_plus=⟦6:0¦1⟧"),
+            ("lib.cairo", "⟦4:¦// top\n⟧mod m;\n#[cfg(feature: 'x')]\nfn pick() -> u8 {\n    1\n}\n#[cfg(not(feature: 'x'))]\nfn pick() -> u8 {\n    2\n}\nfn f(a: u8) -> u8 {\n    m::hidden(a) + pick() + ⟦3:1¦2⟧\n}\n⟦2:¦use m::*;\nfn g(a: u8) -> u8 {\n    vis(a)\n}\n⟧fn d() -> Felt252Dict<u8> {\n    Default::default()\n}\n"),
             ("m.cairo", "fn hidden(a: u8) -> u8 {\n    a\n}\npub fn vis(a: u8) -> u8 {\n    a / 2\n}\n"),
         ],
     },
@@ -194,7 +194,8 @@ fn run_all(ctx: &mut Ctx) {
     for seed in SEEDS.iter().take(nseeds) {
         // start states: the initial content and every single-flag content
         // quick: the first 8 flags of each seed are edited (all are still rendered)
-        let nflags = tier.pick(seed.nflags.min(8), seed.nflags);
+        // (quick: the first 8 flags; of the settings seed the first 4 - edition, cfg feature, glob import, a literal)
+        let nflags = tier.pick(seed.nflags.min(if seed.name == "crate-settings-edits" { 4 } else { 8 }), seed.nflags);
         let starts: Vec<u32> = std::iter::once(0u32).chain((0..nflags).map(|k| 1u32 << k)).collect();
         for &start in &starts {
             ctx.case(
